@@ -981,7 +981,7 @@ func ruleERRUSE(c *Checker) {
 				return
 			}
 			okNil := func(b *ssa.BasicBlock) bool {
-				return hasFact(b, func(f Fact) bool { return factRel(f, isValue(errv), isNilConst) == "==" })
+				return hasFact(b, func(f Fact) bool { return factRel(f, isCarrierOf(errv), isNilConst) == "==" })
 			}
 			for _, r := range *val.Referrers() {
 				use, ok := r.(ssa.Instruction)
@@ -1083,7 +1083,7 @@ func reachableBeforeNilTest(from, to ssa.Instruction, errv ssa.Value) bool {
 			if seen[s] || !edgeFeasible(b, s) {
 				continue
 			}
-			if f, ok := edgeFact(b, s); ok && factRel(f, isValue(errv), isNilConst) == "==" {
+			if f, ok := edgeFact(b, s); ok && factRel(f, isCarrierOf(errv), isNilConst) == "==" {
 				continue
 			}
 			seen[s] = true
